@@ -110,6 +110,7 @@ def conversions(ctx):
 
 
 def run(ctx):
+    _wiring(ctx)
     conversions(ctx)
     R = 'R19.1'
     ctx.rule(R, "every necessary condition of eq()==true has the form abs(self.f - other.f) < EPS; required fields covered")
@@ -160,3 +161,10 @@ def run(ctx):
                       'equality can return true without a symmetric |Δ%s| < EPS test (coordinate not compared, '
                       'or only on some paths, or combined with ||)' % f)
     ctx.floor(R, n, 9)
+
+
+def _wiring(ctx):
+    """name-agreement wiring of the configuration values this property depends on (rules/wiring.py)"""
+    import wiring
+    ctx.rule('R19.3', 'configuration plumbing: same-named fields / parameters / setters / call arguments are not crossed')
+    ctx.floor('R19.3', wiring.run(ctx, 'R19.3', {'xc', 'yc', 'angle', 'aspect', 'height', 'confidence', 'left', 'top', 'width'}), 70)
